@@ -70,6 +70,13 @@ def o_iterate(self, I):
     raise Unsupported("iteration over an opaque value")
 
 
+def o_isinstance(self, I, c):
+    """Class membership of an opaque object: an uninterpreted predicate per class."""
+    name = getattr(c, "__name__", str(c))
+    return ufun(f"isinst!{name}", U(), z3.BoolSort())(self.t)
+
+
+SOpaque.isinstance = o_isinstance
 SOpaque.getattr = o_getattr
 SOpaque.setattr = o_setattr
 SOpaque.hasattr = o_hasattr
